@@ -69,6 +69,14 @@ impl StreamHandler for TcpProxyHandler {
                 destination.port
             );
 
+            #[cfg(feature = "verif")]
+            crate::verif::emit(crate::verif::Event::Destination {
+                session: session.id(),
+                stream: stream_id,
+                host: destination.addr.clone(),
+                port: destination.port,
+            });
+
             // Check if this is a UDP over TCP request
             if destination.addr.contains("udp-over-tcp.arpa") {
                 tracing::debug!("[Proxy] Detected UDP over TCP request");
@@ -273,6 +281,13 @@ async fn proxy_tcp_connection_with_synack_internal(
                 err
             })?
     };
+
+    #[cfg(feature = "verif")]
+    crate::verif::emit(crate::verif::Event::Dial {
+        session: session.id(),
+        stream: stream_id,
+        addr: target_socket,
+    });
 
     // Create outbound TCP connection with timeout
     // Default 15s timeout for DNS resolution + TCP handshake
